@@ -969,6 +969,109 @@ func runC04(c *mon.Ctx) {
 		}
 	})
 
+	// the same glyph values compiled again after they were edited in place:
+	// what is written is a function of the glyph description at the time of
+	// the call, whatever was compiled from the same memory before
+	c.Stratum("recompile", c.N(900, 40000), func(k *mon.Case) {
+		r := k.Rng
+		n := 1 + r.IntN(12)
+		cls := r.IntN(c04NClasses)
+		glyphs := make([]*cff.Glyph, n)
+		infos := make([]c04info, n)
+		for i := range glyphs {
+			name := fmt.Sprintf("g%d", i)
+			if i == 0 {
+				name = ".notdef"
+			}
+			glyphs[i], infos[i] = c04glyph(r, name, c04Families[r.IntN(len(c04Families)-2)], 0, cls, r.IntN(3) == 0)
+		}
+		ws := c04widths(r, n, k)
+		for i, g := range glyphs {
+			g.Width = ws[i]
+		}
+		c04check(k, glyphs, infos, true, "")
+		if k.Failed() {
+			return
+		}
+		rounds := 1 + r.IntN(3)
+		for round := 0; round < rounds; round++ {
+			mode := (k.Index + round) % 4
+			edited := 0
+			for _, g := range glyphs {
+				if n > 1 && r.IntN(3) == 0 {
+					continue // some glyphs stay as they were
+				}
+				coords := 0
+				for _, cmd := range g.Cmds {
+					if cmd.Op == cff.OpMoveTo || cmd.Op == cff.OpLineTo || cmd.Op == cff.OpCurveTo {
+						coords += len(cmd.Args) / 2
+					}
+				}
+				if coords == 0 {
+					continue
+				}
+				pick := r.IntN(coords)
+				seen := 0
+				for ci, cmd := range g.Cmds {
+					if cmd.Op != cff.OpMoveTo && cmd.Op != cff.OpLineTo && cmd.Op != cff.OpCurveTo {
+						continue
+					}
+					for j := 0; j+1 < len(cmd.Args); j += 2 {
+						switch mode {
+						case 0: // mirror everything on the diagonal
+							cmd.Args[j], cmd.Args[j+1] = cmd.Args[j+1], cmd.Args[j]
+						case 1: // mirror everything on the y axis
+							cmd.Args[j] = -cmd.Args[j]
+						case 2: // one point only
+							if seen == pick {
+								cmd.Args[j], cmd.Args[j+1] = cmd.Args[j+1], -cmd.Args[j]
+							}
+						case 3: // one command gets a new argument list, the command list stays
+							if seen == pick {
+								na := append([]float64(nil), cmd.Args...)
+								na[j], na[j+1] = -na[j+1], na[j]
+								g.Cmds[ci].Args = na
+								cmd.Args = na
+							}
+						}
+						seen++
+					}
+				}
+				edited++
+			}
+			if edited == 0 {
+				continue
+			}
+			// the edit must stay inside the domain: no step of more than
+			// 32000 units between consecutive points
+			inside := true
+			for _, g := range glyphs {
+				x, y := 0.0, 0.0
+				for _, cmd := range g.Cmds {
+					if cmd.Op != cff.OpMoveTo && cmd.Op != cff.OpLineTo && cmd.Op != cff.OpCurveTo {
+						continue
+					}
+					for j := 0; j+1 < len(cmd.Args); j += 2 {
+						if math.Abs(cmd.Args[j]-x) > 32000 || math.Abs(cmd.Args[j+1]-y) > 32000 {
+							inside = false
+						}
+						x, y = cmd.Args[j], cmd.Args[j+1]
+					}
+				}
+			}
+			if !inside {
+				k.Class("recompile:edit-leaves-domain")
+				return
+			}
+			k.Class(fmt.Sprintf("recompile:edit-mode-%d", mode))
+			c04check(k, glyphs, infos, true, "recompiled:")
+			if k.Failed() {
+				return
+			}
+		}
+	})
+	c.Require("recompile:edit-mode-0", "recompile:edit-mode-1", "recompile:edit-mode-2", "recompile:edit-mode-3")
+
 	// enumerations: every h/v run length 1..60 in both phases; every hv/vh chain
 	// length 1..13 x start direction x trailing operand; in every integer class
 	c.Stratum("enum", c.N(120, 4000), func(k *mon.Case) {
